@@ -756,6 +756,7 @@ def rules(ck, P):
         ui = next((i for i, s in enumerate(sts) if ir.contains(s, lambda y: y.get("k") == "mcall" and y.get("name") in ("serialize_entries", "as_slice"))), None)
         ck.check(si is not None and ui is not None and si < ui, "R-PM-SORT", "sort-before-serialize", "entries are sorted by tile_id before any slice is serialised", "entries are serialised without a preceding sort by tile_id", ir.loc(ad))
     wire.pm_layout_rules(ck, P)
+    wire.byte_range_shift_rules(ck, P)
     wire.pm_directory_codec_rules(ck, P)
     wire.vt_types_rules(ck, P)
     # ---------------- R-PM-LEAVES: leaf directories partition the sorted entries
